@@ -214,6 +214,29 @@ pub fn minimise(mut rf: ReplayFile, budget_s: u64) -> ReplayFile {
                 }
             }
         }
+        // 3b. drop programs nobody executes any more (remapping indices)
+        let mut p = w.programs.len();
+        while p > 0 && w.programs.len() > 1 && !cx.out_of_time() {
+            p -= 1;
+            let n = w.programs.len();
+            let used = w.threads.iter().any(|t| t.ops.iter().any(|o| matches!(o, Op::Exec { prog, .. } if *prog % n == p)));
+            if used {
+                continue;
+            }
+            let mut cand = w.clone();
+            cand.programs.remove(p);
+            for t in cand.threads.iter_mut() {
+                for o in t.ops.iter_mut() {
+                    if let Op::Exec { prog, .. } = o {
+                        let q = *prog % n;
+                        *prog = if q > p { q - 1 } else { q };
+                    }
+                }
+            }
+            if accept!(cand, Some(sched.clone())) {
+                progress = true;
+            }
+        }
         // 4. recipe: drop variables, shrink values
         let mut vi = 0;
         while vi < w.recipe.vars.len() && !cx.out_of_time() {
